@@ -91,6 +91,9 @@ def gen_props():
             nth += len(ths)
             mods.append(f"`{m}` ({len(ths)})")
         out.append(f"*Theorem modules (audited with `#print axioms` on every run):* {', '.join(mods)} — {nth} theorems; statements in `THEOREMS.md`.")
+        if P.get("obligations"):
+            out.append("")
+            out.append("*Obligations over tables regenerated from the source on every run (5.4):* " + ", ".join(f"`{o}`" for o in P["obligations"]) + ".")
         out.append("")
         out.append("*Correspondence streams:* " + ", ".join(f"`{s['name']}`" for s in P["streams"]) + ". " + P["rule"])
         if P.get("assumptions"):
@@ -140,8 +143,12 @@ DESCR = {
     "Filters/Str": "string filter bodies (23 filters)",
     "Filters/StrGlue": "string filters plugged into the call layer (lazy arguments)",
     "Filters/Arr": "array filter bodies (compact concat join map reverse sort sort_natural first last uniq), canonical sort form",
+    "TokenReSrc": "`parser.formTokenMatcher` as data (`StrExpr`, `TokenReSrc.pattern`: Sprintf/QuoteMeta/Join/range), `regexp.QuoteMeta`, the printer `Re.toGoSyntax` of the model's expressions in Go syntax (T4)",
+    "Rex": "driver ops `rex`/`rexs`: decode an expression, print it, match it, answer like `FindStringSubmatchIndex`",
     "Generated/Writes": "written by translator T3 on every run: every store to a captured or package-level variable",
     "Generated/Grammar": "written by translator T1 on every run: the block grammar table of `AddStandardTags`",
+    "Generated/Filters": "written by translator T2 on every run: name, parameter types and result shape of every `AddFilter` of `AddStandardFilters`",
+    "Generated/TokenRe": "written by translator T4 on every run: the format string, arguments and exclusion loop of `formTokenMatcher`",
 }
 
 
